@@ -10,7 +10,7 @@ fn allowed(list: &Value, got: &Value) -> bool {
     list.as_array().map(|a| a.iter().any(|x| x == got)).unwrap_or(false)
 }
 
-fn dir_name(d: CharacterDirection) -> &'static str {
+pub fn dir_name(d: CharacterDirection) -> &'static str {
     match d {
         CharacterDirection::LTR => "LTR",
         CharacterDirection::RTL => "RTL",
